@@ -13,12 +13,12 @@ structure Leaves (K : Bus → Bus → Prop) : Prop where
   gate : ∀ b s a p m, K b { b with pending := (checkPolicy b s a p m).1 }
   /-- a vanished connection's pending replies are forgotten -/
   forget : ∀ b c, K b { b with pending := b.pending.filter fun p => !involves c p }
-  acquire : ∀ t c n flags, K t.bus (acquire t c n flags).1.bus
+  acquire : ∀ t c n flags, t.bus.isActive c = true → K t.bus (acquire t c n flags).1.bus
   release : ∀ t c n, K t.bus (release t c n).1.bus
   removeOwner : ∀ t n c, K t.bus (removeOwner t n c).bus
   helloOk : ∀ t c m, t.bus.isActive c = false → nCompleted t.bus < t.bus.limits.maxCompleted →
     nCompletedFor t.bus (uidOf t.bus c) < t.bus.limits.maxPerUser → K t.bus (helloOk t c m).bus
-  addRule : ∀ b c r, nRules b c < b.limits.maxRules → K b (b.updRules c (· ++ [r]))
+  addRule : ∀ b c r, b.isActive c = true → nRules b c < b.limits.maxRules → K b (b.updRules c (· ++ [r]))
   removeRule : ∀ b c r rs', removeRule (rulesOfConn b c) r = some rs' → K b (b.updRules c fun _ => rs')
   gcRules : ∀ b c x, b.conn? c = some x → K b (gcRules b x)
   clearRules : ∀ b c, K b (clearRules b c)
@@ -109,12 +109,14 @@ theorem lv_hello (L : Leaves K) (t : Tx) (c : ConnId) (m : Msg) : K t.bus (hello
   rename_i h1 h2 h3
   exact L.helloOk t c m (by simpa using h1) (by omega) (by omega)
 
-theorem lv_runMethod (L : Leaves K) (t : Tx) (c : ConnId) (m : Msg) (w : Method) : K t.bus (runMethod t c m w).1.bus := by
+theorem lv_runMethod (L : Leaves K) (t : Tx) (c : ConnId) (m : Msg) (w : Method)
+    (hact : t.bus.isActive c = true ∨ w = .hello) : K t.bus (runMethod t c m w).1.bus := by
+  have ha : w ≠ .hello → t.bus.isActive c = true := fun h => hact.resolve_right h
   cases w with
   | hello => exact lv_hello L t c m
   | requestName =>
     simp only [runMethod]
-    have h := L.acquire t c (arg0 m) (arg1Nat m)
+    have h := L.acquire t c (arg0 m) (arg1Nat m) (ha (by simp))
     rcases hr : Dbus.Model.Bus.acquire t c (arg0 m) (arg1Nat m) with ⟨t1, r⟩
     rw [hr] at h
     cases r with
@@ -152,7 +154,7 @@ theorem lv_runMethod (L : Leaves K) (t : Tx) (c : ConnId) (m : Msg) (w : Method)
       · split
         · exact L.refl _
         · rename_i r _ _
-          exact L.trans _ _ _ (L.addRule t.bus c r (by omega))
+          exact L.trans _ _ _ (L.addRule t.bus c r (ha (by simp)) (by omega))
             (lv_reply L ({ t with bus := t.bus.updRules c (· ++ [r]) } : Tx) c m [] [])
       · exact L.refl _
       · exact L.refl _
@@ -173,12 +175,86 @@ theorem lv_runMethod (L : Leaves K) (t : Tx) (c : ConnId) (m : Msg) (w : Method)
   | becomeMonitor => exact L.refl _
   | opaqueM => exact L.refl _
 
-theorem lv_driverHandle (L : Leaves K) (tbl : List IfaceRow) (t : Tx) (c : ConnId) (m : Msg) :
+/-- what `findHandler` can return: an interface row of the table that the message's interface (if
+    any) names, and one of its method rows with the message's member -/
+theorem findHandler_handler {tbl : List IfaceRow} {canonical : Bool} {iface : Option Bytes} {name i : Bytes} {row : MethodRow}
+    (h : findHandler tbl canonical iface name = .handler i row) :
+    (∀ x, iface = some x → x = i) ∧ row.name = name := by
+  unfold findHandler findIn at h
+  cases hfs : List.findSome? (handlerIn name)
+      (tbl.filter fun ih => (canonical || ih.anyPath) && ifaceWanted iface ih.name) with
+  | none =>
+    rw [hfs] at h
+    dsimp only at h
+    split at h <;> cases h
+  | some pr =>
+    rw [hfs] at h
+    obtain ⟨i', r'⟩ := pr
+    simp only [Found.handler.injEq] at h
+    obtain ⟨rfl, rfl⟩ := h
+    obtain ⟨ih, hih, hm⟩ := List.exists_of_findSome?_eq_some hfs
+    unfold handlerIn at hm
+    simp only [Option.map_eq_some_iff, Prod.mk.injEq] at hm
+    obtain ⟨r, hr, rfl, rfl⟩ := hm
+    have hcand := (List.mem_filter.mp hih).2
+    refine ⟨?_, by simpa using List.find?_some hr⟩
+    intro x hx
+    subst hx
+    simp only [Bool.and_eq_true, ifaceWanted, beq_iff_eq] at hcand
+    exact hcand.2
+
+theorem methodOf_hello : methodOf BUS_NAME [0x48, 0x65, 0x6c, 0x6c, 0x6f] = .hello := by decide
+
+theorem isActive_setPending (t : Tx) (p : List Pending) (c : ConnId) : (t.setPending p).bus.isActive c = t.bus.isActive c := rfl
+
+theorem lv_driverHandle (L : Leaves K) (tbl : List IfaceRow) (t : Tx) (c : ConnId) (m : Msg)
+    (hact : t.bus.isActive c = true ∨ isHello m = true) :
     K t.bus (driverHandle tbl t c m).1.bus := by
   unfold Dbus.Model.Bus.driverHandle
   dsimp only
-  repeat' split
-  all_goals first | exact lv_runMethod L _ _ _ _ | exact L.refl _
+  split
+  · exact L.refl _
+  · split
+    · exact L.refl _
+    · exact L.refl _
+    · rename_i i row hf
+      split
+      · exact L.refl _
+      · split
+        · exact L.refl _
+        · split
+          · exact L.refl _
+          · apply lv_runMethod L
+            rcases hact with h | h
+            · exact Or.inl h
+            · right
+              obtain ⟨h1, h2⟩ := findHandler_handler hf
+              unfold isHello at h
+              simp only [Bool.and_eq_true, beq_iff_eq] at h
+              have hi : i = BUS_NAME := (h1 BUS_NAME h.1.2).symm
+              have hn : row.name = [0x48, 0x65, 0x6c, 0x6c, 0x6f] := by
+                rw [h2, h.2]; rfl
+              rw [hi, hn]; exact methodOf_hello
+
+/-- the gate lets a connection that has not said Hello send nothing but Hello -/
+theorem gate_active_or_hello {b : Bus} {c : ConnId} {m : Msg} {p : List Pending}
+    (h : checkPolicy b (some c) none none m = (p, none)) : b.isActive c = true ∨ isHello m = true := by
+  unfold checkPolicy at h
+  split at h
+  · cases h
+  · dsimp only at h
+    cases ha : b.isActive c with
+    | true => exact Or.inl rfl
+    | false =>
+      right
+      have hv : ∀ r, policyVerdict b (some c) none none m r = (if isHello m then none else some .accessDenied) := by
+        intro r
+        unfold policyVerdict
+        simp [senderInactive, ha]
+      rw [hv] at h
+      cases hh : isHello m with
+      | true => rfl
+      | false => simp [hh] at h
 
 theorem lv_toDriver (L : Leaves K) (tbl : List IfaceRow) (t : Tx) (c : ConnId) (m : Msg) :
     K t.bus (toDriver tbl t c m).1.bus := by
@@ -192,7 +268,8 @@ theorem lv_toDriver (L : Leaves K) (tbl : List IfaceRow) (t : Tx) (c : ConnId) (
   | some e => exact h0
   | none =>
     dsimp only
-    have h1 := lv_driverHandle L tbl (t.setPending p) c m
+    have hact := gate_active_or_hello hcp
+    have h1 := lv_driverHandle L tbl (t.setPending p) c m hact
     rcases hd : Dbus.Model.Bus.driverHandle tbl (t.setPending p) c m with ⟨t1, e1⟩
     rw [hd] at h1
     cases e1 with
